@@ -376,10 +376,16 @@ def stack_rule(chk, I, regs, mem, kind, o, unit, label, where, sp_dec, sp_inc):
     ranges = I.atom_ranges()
     spv = regs["sp"]
     want_sp = sp_dec if kind == "push" else sp_inc
-    if spv.aff is None:
+    pop_sp = (o.kind == "reg" and o.reg == "sp" and kind == "pop")
+    if pop_sp:
+        # POP SP: the 8086 increments SP and then loads it, so SP ends as the popped word (an exact copy of the
+        # two stack cells); checked in the data part below
+        verdict, env = "equal", None
+    elif spv.aff is None:
         chk.undecided_("C05.R3", unit + ":sp", "no exact form for SP")
         return
-    verdict, env = lin_equal_witness(spv.aff, want_sp, ranges)
+    else:
+        verdict, env = lin_equal_witness(spv.aff, want_sp, ranges)
     if verdict == "differ":
         chk.violation("C05.R3", label, "sp-update" + (":pop-sp" if (o.kind == "reg" and o.reg == "sp" and kind == "pop") else ""), f"{unit}: SP becomes {spv.aff.pretty()}, expected {want_sp.pretty()}", where, str(env))
         return
@@ -426,8 +432,9 @@ def stack_rule(chk, I, regs, mem, kind, o, unit, label, where, sp_dec, sp_inc):
     else:
         want = [("c", f"mem[{found['lo'][0]}]", i) for i in range(8)] + [("c", f"mem[{found['hi'][0]}]", i) for i in range(8)]
         got = read_after(o, regs, mem)
-        if o.kind == "reg" and o.reg == "sp":
-            got = want  # POP SP: value-level interaction with the increment, not decided here
+        if pop_sp and (got is None or got != want):
+            chk.violation("C05.R3", label, "sp-update:pop-sp", f"{unit}: SP must end as the popped word (increment first, then load); it ends as {spv!r}", where)
+            return
         if got is None or got != want:
             d = [i for i in range(16) if got is None or got[i] != want[i]]
             chk.violation("C05.R3", label, "popped-bits", f"{unit}: destination bits {d} are not the stack word's bits", where)
